@@ -6,6 +6,7 @@ import (
 	"github.com/ethereum/go-ethereum/common"
 	"github.com/holiman/uint256"
 	"math/big"
+	"sort"
 )
 
 type NodeType int
@@ -83,13 +84,22 @@ func NewRootKey() *StorageKey {
 	}
 }
 
+// sortedChildIndices returns the index keys of the children in a fixed (bytewise) order,
+// so that equal executions give equal answers whatever the map iteration order is.
+func (k *StorageKey) sortedChildIndices() []string {
+	indices := make([]string, 0, len(k.childrenIndex))
+	for index := range k.childrenIndex {
+		indices = append(indices, index)
+	}
+	sort.Strings(indices)
+	return indices
+}
+
 // Children returns the children of the storage key
 func (k *StorageKey) Children() []*StorageKey {
 	res := make([]*StorageKey, 0, len(k.childrenIndex))
-	if len(k.childrenIndex) > 0 {
-		for _, child := range k.childrenIndex {
-			res = append(res, child)
-		}
+	for _, index := range k.sortedChildIndices() {
+		res = append(res, k.childrenIndex[index])
 	}
 	return res
 }
@@ -97,10 +107,8 @@ func (k *StorageKey) Children() []*StorageKey {
 // ChildrenIndices returns the indices of the children of the storage key
 func (k *StorageKey) ChildrenIndices() [][]byte {
 	res := make([][]byte, 0, len(k.childrenIndex))
-	if len(k.childrenIndex) > 0 {
-		for index := range k.childrenIndex {
-			res = append(res, []byte(index))
-		}
+	for _, index := range k.sortedChildIndices() {
+		res = append(res, []byte(index))
 	}
 	return res
 }
@@ -364,14 +372,7 @@ func (s *StateChanges) IndicesOfChanges(account common.Address, stateVarName str
 		return nil
 	}
 
-	res := make([][]byte, 0, len(key.childrenIndex))
-	if len(key.childrenIndex) > 0 {
-		for index := range key.childrenIndex {
-			res = append(res, []byte(index))
-		}
-	}
-
-	return res
+	return key.ChildrenIndices()
 }
 
 // Call records the current contract call information
